@@ -313,6 +313,10 @@ def _ghost_plan(ex, st, cls_of, conflicts):
         def truth_term(self, it):
             return st.revlen[self.ch.t] > 0
 
+        def contains(self, it, pair):
+            b, k = pair
+            return SBool(st.rev[self.ch.t][b.t][k.t] > 0)
+
         def _bump(self, pair, d):
             b, k = pair
             inner = st.rev[self.ch.t]
